@@ -39,14 +39,25 @@ func VerifC15_MultiDelete() {
 		keys[p] = vpKeyForPartition("d", uint64(p), parts, 0)
 	}
 	keys[3] = vpKeyForPartition("d", 1, parts, 1) // a second key on member 1
+	// a key may also never have been stored: naming it is not an error and does not disturb its neighbours in the call
+	stored := [4]bool{}
 	for i, k := range keys {
+		stored[i] = vpBool("stored")
+		if !stored[i] {
+			continue
+		}
 		owner := int(partitions.HKey("d", k) % parts)
 		err := vpDMap(cl.members[owner], "d").Put(ctx, k, []byte{byte('A' + i)}, nil)
 		vpAssume(err == nil)
 	}
 	var named []string
 	inSet := [4]bool{}
-	for i := range keys {
+	backwards := vpBool("backwards") // the order in which the caller lists the keys
+	for j := range keys {
+		i := j
+		if backwards {
+			i = len(keys) - 1 - j
+		}
 		if vpBool("named") {
 			named = append(named, keys[i])
 			inSet[i] = true
@@ -62,7 +73,7 @@ func VerifC15_MultiDelete() {
 	for i, k := range keys {
 		for m := 0; m < 3; m++ {
 			_, gerr := vpDMap(cl.members[m], "d").Get(ctx, k)
-			if inSet[i] {
+			if inSet[i] || !stored[i] {
 				vpAssert(errors.Is(gerr, ErrKeyNotFound), "named-key-is-deleted-wherever-it-lives")
 			} else {
 				vpAssert(gerr == nil, "other-key-untouched")
